@@ -3,7 +3,8 @@
 """Read three small decisions of block desugaring out of the Rust source into Gen/DesugarRules.v:
   * the `times` zero-test rule (`if let None | Some(0) = count_as_const`, src/passes/desugar_blocks.rs),
   * the counting-jump flavour used when the format has no counting jump (`unwrap_or(...)`, same file),
-  * the order of preference between the two flavours (discover_alternatives, src/llir/intrinsic.rs).
+  * the order of preference between the two flavours (discover_alternatives, src/llir/intrinsic.rs),
+  * whether AstVm assigns `time` at the three points the jump form reaches by falling through (src/vm.rs).
 usage: desugar_rules.py <repo> <out.v>"""
 import sys, re
 from rsparse import *
@@ -56,13 +57,38 @@ def main(repo, out):
     if order is None:
         notes.append('preference order not found (for kind in vec![...] { ... preferred_count_jmp = Some(kind) })')
 
-    ok = ok1 and fb is not None and order is not None
+    # (4) AstVm at the three fall-through points (src/vm.rs): does it assign `time` there?
+    vsrc = strip_comments(open(repo + '/src/vm.rs').read())
+    resets = None
+    chain, _ = block_after(vsrc, r'ast::StmtKind::CondChain\(chain\)\s*=>\s*')
+    tn, _ = block_after(vsrc, r'ast::StmtKind::Times\s*\{\s*clobber:\s*None\s*,[^}]*\}\s*=>\s*')
+    tc, _ = block_after(vsrc, r'ast::StmtKind::Times\s*\{\s*clobber:\s*Some\(clobber\)\s*,[^}]*\}\s*=>\s*')
+    if chain and tn and tc:
+        c, a, b = nows(chain), nows(tn), nows(tc)
+        as_found = ('branch_taken=true;self.time=start_time(block);handle_block!(block);break;' in c
+                    and c.endswith('self.time=end_time(chain.last_block());')
+                    and 'for_in0..count{self.time=start_time(block);handle_block_of_breakable_stmt!(block);}' in a
+                    and 'ifcount!=0{loop{self.time=start_time(block);handle_block_of_breakable_stmt!(block);' in b)
+        patched = ('ifindex>0{self.time=start_time(block);}handle_block!(block);ran_last_block=else_block.is_none()&&index==cond_blocks.len()-1;break;' in c
+                   and c.endswith('if!ran_last_block{self.time=end_time(chain.last_block());}')
+                   and 'self.time=start_time(else_block);handle_block!(else_block);ran_last_block=true;' in c
+                   and 'foriterationin0..count{self.time=ifiteration>0{start_time(block)}else{time_at_entry};handle_block_of_breakable_stmt!(block);}' in a
+                   and 'lettime_at_entry=self.time;self.time=end_time(block);' in a
+                   and 'self.time=time_at_entry;letmutfirst_iteration=true;loop{if!first_iteration{self.time=start_time(block);}first_iteration=false;handle_block_of_breakable_stmt!(block);' in b)
+        if as_found and not patched: resets = 'true'
+        elif patched and not as_found: resets = 'false'
+    if resets is None:
+        notes.append('unrecognised AstVm time assignments in the CondChain/Times arms of src/vm.rs')
+
+    ok = ok1 and fb is not None and order is not None and resets is not None
     text = '(* GENERATED by gen/desugar_rules.py from src/passes/desugar_blocks.rs and src/llir/intrinsic.rs -- do not edit *)\n'
     text += 'From TV Require Import Base.I32 Model.Blocks.\nOpen Scope Z_scope.\n'
     text += 'Definition gen_rules_recognised : bool := %s.\n' % ('true' if ok else 'false')
     text += 'Definition gen_zero_test (c : option Z) : bool := match c with None => %s | Some z => %s end.\n' % (none_case, zt)
     text += 'Definition gen_fallback : flavour := %s.\n' % (fb or 'PredecNeZero')
     text += 'Definition gen_pref_order : list flavour := [%s].\n' % '; '.join(order or [])
+    text += '(* does AstVm assign `time` where the jump form falls through? (true: vm.rs as found; false: with fixes/c06-astvm-time-reset.diff) *)\n'
+    text += 'Definition gen_astvm_resets_time : bool := %s.\n' % (resets or 'true')
     text += '(* translator notes:\n' + ''.join('   %s\n' % n.replace('*)', '* )') for n in notes) + '*)\n'
     write_if_changed(out, text)
     for n in notes: print('desugar_rules: ' + n)
